@@ -69,6 +69,9 @@ def cases(tier, seed):
         out.append(dict(mode="order", scheme=sch, field=f, via="analytical"))
     for sch, f, sub in itertools.product(SCHEMES, ["tlin", "shear", "rot", "saddle"], [None, [2, 12, 1, 10]]):
         out.append(dict(mode="roms", scheme=sch, field=f, subgrid=sub))
+    # the real ROMS grid with an anisotropic metric (pm != pn): dY/dt = v/dy
+    for sch, f in itertools.product(SCHEMES, ["tlin", "rot", "saddle"]):
+        out.append(dict(mode="roms", scheme=sch, field=f, subgrid=None, dy=500.0))
     return out
 
 
@@ -380,28 +383,29 @@ def run_order(case):
 
 
 # ------------------------------------------------------------------ seam 2: ROMS files, end to end
-def ref_step(scheme, fu, x, y, t, dt, dx, s=0.5):
-    """Reference stepper (tableau) with exact field fu(x, y, t) -> (u, v) in m/s and uniform metric dx."""
+def ref_step(scheme, fu, x, y, t, dt, dx, s=0.5, dy=None):
+    """Reference stepper (tableau) with exact field fu(x, y, t) -> (u, v) in m/s and uniform metric dx (dy along Y)."""
+    dy = dx if dy is None else dy
     if scheme == "EF":
         u, v = fu(x, y, t)
-        return x + dt * u / dx, y + dt * v / dx
+        return x + dt * u / dx, y + dt * v / dy
     if scheme == "RK2":
         u0, v0 = fu(x, y, t)
-        u1, v1 = fu(x + s * dt * u0 / dx, y + s * dt * v0 / dx, t + s * dt)
+        u1, v1 = fu(x + s * dt * u0 / dx, y + s * dt * v0 / dy, t + s * dt)
         m = 1 / (2 * s)
-        return x + dt * ((1 - m) * u0 + m * u1) / dx, y + dt * ((1 - m) * v0 + m * v1) / dx
+        return x + dt * ((1 - m) * u0 + m * u1) / dx, y + dt * ((1 - m) * v0 + m * v1) / dy
     u0, v0 = fu(x, y, t)
-    u1, v1 = fu(x + 0.5 * dt * u0 / dx, y + 0.5 * dt * v0 / dx, t + 0.5 * dt)
-    u2, v2 = fu(x + 0.5 * dt * u1 / dx, y + 0.5 * dt * v1 / dx, t + 0.5 * dt)
-    u3, v3 = fu(x + dt * u2 / dx, y + dt * v2 / dx, t + dt)
-    return x + dt * (u0 + 2 * u1 + 2 * u2 + u3) / (6 * dx), y + dt * (v0 + 2 * v1 + 2 * v2 + v3) / (6 * dx)
+    u1, v1 = fu(x + 0.5 * dt * u0 / dx, y + 0.5 * dt * v0 / dy, t + 0.5 * dt)
+    u2, v2 = fu(x + 0.5 * dt * u1 / dx, y + 0.5 * dt * v1 / dy, t + 0.5 * dt)
+    u3, v3 = fu(x + dt * u2 / dx, y + dt * v2 / dy, t + dt)
+    return x + dt * (u0 + 2 * u1 + 2 * u2 + u3) / (6 * dx), y + dt * (v0 + 2 * v1 + 2 * v2 + v3) / (6 * dy)
 
 
 def run_roms(case):
     scheme, field = case["scheme"], case["field"]
     d = util.scratch("c01")
     dx, dt, nsteps = 800.0, 600, 6
-    w = world.World(imax=14, jmax=12, N=2, h=50.0, dx=dx)
+    w = world.World(imax=14, jmax=12, N=2, h=50.0, dx=dx, dy=case.get("dy"))
     xc, yc = 7.0, 5.5
     # fields linear in x, y (exact under bilinear C-grid interpolation); time dependence linear between two frames
     if field == "tlin":
@@ -438,11 +442,11 @@ def run_roms(case):
             rec = out["records"][k]
             for i, (x, y) in enumerate(pos):
                 worst = max(worst, abs(rec["vars"]["X"][i] - x), abs(rec["vars"]["Y"][i] - y))
-            pos = [ref_step(scheme, fu, x, y, k * dt, dt, dx, s) for x, y in pos]
+            pos = [ref_step(scheme, fu, x, y, k * dt, dt, dx, s, case.get("dy")) for x, y in pos]
         best = worst if best is None else min(best, worst)
     v = []
     if best > 1e-9:
-        v.append(util.viol(f"roms:trajectory:{scheme}", f"{scheme} on ROMS files, field {field}, subgrid {case['subgrid']}: trajectory deviates from the reference {scheme} stepper by {best} cells", case))
+        v.append(util.viol(f"roms:trajectory:{scheme}" + (":anisotropic-metric" if case.get("dy") else ""), f"{scheme} on ROMS files, field {field}, subgrid {case['subgrid']}, dy={case.get('dy', dx)}: trajectory deviates from the reference {scheme} stepper by {best} cells", case))
     return util.result(evals=nsteps * len(starts), nontrivial=nsteps * len(starts), viol=v, outcomes=[f"roms:{scheme}:{best < 1e-9}"], states=nsteps, transitions=nsteps * 4, sample=case)
 
 
